@@ -163,6 +163,9 @@ def finish(prop, mod, tier, a, specs, results, t0, fnd):
             for fn, n in d['functions'].items():
                 fd[fn] = fd.get(fn, 0) + n
 
+    if hasattr(mod, 'post_aggregate'):
+        mod.post_aggregate(tier, info, exhaustive_spaces)
+
     # ---- required reach (absence => inconclusive, never "held")
     if not a.replay:
         req = getattr(mod, 'REQUIRED', {})
@@ -269,8 +272,7 @@ def write_evidence(prop, mod, tier, seed, evaluations, nontrivial, samples, clas
     }
     if exhaustive_spaces:
         cov['exhaustive_subspaces'] = exhaustive_spaces
-        if getattr(mod, 'EXHAUSTIVE_WHEN', None) and all(k in exhaustive_spaces for k in mod.EXHAUSTIVE_WHEN.get(tier, ['__never__'])):
-            cov['exhaustive'] = True
+        cov['exhaustive'] = False  # only the listed sub-spaces were enumerated completely
     ev = {
         'property_id': prop,
         'tier': tier,
